@@ -59,6 +59,8 @@ func (s *c17Scenario) files() map[string]string {
 				fmt.Fprintf(&sb, "// goverter:output:file ./generated/%s.go\n", strings.ToLower(c.name))
 			case "shared":
 				fmt.Fprintf(&sb, "// goverter:output:file ../out/%s.go\n// goverter:output:package vcase/%s/out\n", strings.ToLower(c.name), s.name)
+			case "deep":
+				fmt.Fprintf(&sb, "// goverter:output:file ./gen/level1/level2/%s.go\n", strings.ToLower(c.name))
 			case "same":
 				fmt.Fprintf(&sb, "// goverter:output:file ./%s_gen.go\n", strings.ToLower(c.name))
 			}
@@ -123,7 +125,7 @@ func C17(e *core.Env) int {
 	var runs []run
 	stages := []string{"directive", "signature", "conversion", "render", "extend"}
 	priors := []string{"none", "current", "stale", "foreign"}
-	outs := []string{"", "", "own", "shared", "same"}
+	outs := []string{"", "", "own", "shared", "same", "deep"}
 	for si := 0; si < nScen; si++ {
 		npkg := 2 + r.Intn(tierN(e, 2, 4))
 		nconv := 2 + r.Intn(tierN(e, 3, 6))
